@@ -93,15 +93,6 @@ func (c *Collection) next() uint32 {
 	return idx
 }
 
-// free marks the index as free, atomically.
-func (c *Collection) free(idx uint32) {
-	c.lock.Lock()
-	c.fill.Remove(idx)
-	atomic.StoreUint64(&c.count, uint64(c.fill.Count()))
-	c.lock.Unlock()
-	return
-}
-
 // findFreeIndex finds a free index for insertion
 func (c *Collection) findFreeIndex(count uint64) uint32 {
 	fillSize := len(c.fill)
